@@ -42,7 +42,10 @@ def gen_param(r, cls, name, i):
         return np.array([r1, r1 + u(0.3, 0.8), u(0.5, 1.5), p1, p1 + u(40, 200)])
     if name == "vertices":
         if cls == "Tetrahedron":
-            return TET_V * u(0.6, 1.4) + np.array([[u(-0.1, 0.1) for _ in range(3)] for _ in range(4)])
+            v = TET_V * u(0.6, 1.4) + np.array([[u(-0.1, 0.1) for _ in range(3)] for _ in range(4)])
+            order = [0, 1, 2, 3]
+            r.shuffle(order)            # both handednesses (the core reorders left-handed vertex sets)
+            return v[order]
         return np.array([[u(-1, 1) for _ in range(3)] for _ in range(3)]) + np.array([[0, 0, 0], [1.5, 0, 0], [0, 1.5, 0]])
     if name == "mesh":
         if i % 2 == 0:
@@ -305,4 +308,50 @@ def core_events(args):
                 ev = {"tid": tid0 + n, "kind": "functional", "what": "core", "cls": "core", "field": "", "given": given, "outcome": "exc:" + type(ex).__name__, "nrows": 0, "rows": [], "oo": [], "fin": True}
             f.write(json.dumps(ev, separators=(",", ":")) + "\n")
             n += 1
+    return n
+
+
+def caller_array_events(args):
+    """C08: every class through the functional interface with caller-owned float64 arrays for EVERY parameter
+    (incl. the documented `magnetization` alternative); byte digest of each array before/after, and the call repeated."""
+    classes, path, tid0, salt = args
+    magpy = import_magpylib()
+    r = rng(salt)
+    n = 0
+    with open(path, "w") as f:
+        for cls in classes:
+            names = {"Cuboid": ["dimension", "polarization"], "Cylinder": ["dimension", "polarization"], "CylinderSegment": ["dimension", "polarization"],
+                     "Sphere": ["diameter", "polarization"], "Tetrahedron": ["vertices", "polarization"], "Triangle": ["vertices", "polarization"],
+                     "TriangularMesh": ["mesh", "polarization"], "Circle": ["diameter", "current"], "Polyline": ["segment_start", "segment_end", "current"],
+                     "Dipole": ["moment"]}[cls]
+            for N in (1, 2, 3):
+                for use_magn in ((False, True) if "polarization" in names else (False,)):
+                    for field in "BHJM":
+                        ps = {}
+                        for p in names + ["position", "observers"]:
+                            key = "magnetization" if (p == "polarization" and use_magn) else p
+                            vals = [gen_param(r, cls, key, 0 if p == "mesh" else i) for i in range(N)]
+                            ps[key] = np.array(vals, dtype=float) if N > 1 else np.array(vals[0], dtype=float)
+                        ori = R.from_quat(np.array([gen_param(r, cls, "orientation", i) for i in range(N)])) if N > 1 else R.from_quat(gen_param(r, cls, "orientation", 0))
+                        obs = ps.pop("observers")
+                        arrays = [obs] + [ps[k] for k in sorted(ps)]
+                        pre = [a.tobytes() for a in arrays]
+                        fn = getattr(magpy, "get" + field)
+                        exc = exc2 = ""
+                        o1 = o2 = None
+                        try:
+                            o1 = np.asarray(fn(cls, obs, orientation=ori, **ps))
+                        except Exception as ex:  # pylint: disable=broad-except
+                            exc = type(ex).__name__
+                        post = [a.tobytes() for a in arrays]
+                        try:
+                            o2 = np.asarray(fn(cls, obs, orientation=ori, **ps))
+                        except Exception as ex:  # pylint: disable=broad-except
+                            exc2 = type(ex).__name__
+                        again = exc == exc2 and (o1 is None or (o2 is not None and np.array_equal(o1, o2, equal_nan=True)))
+                        changed = [k for k, a, b in zip(["observers"] + sorted(ps), pre, post) if a != b]
+                        f.write(json.dumps({"tid": tid0 + n, "kind": "plain", "what": f"functional {cls} N={N} {'magnetization' if use_magn else ''} changed={changed}", "exc": exc,
+                                            "unchanged": not changed, "equal_len": True, "again_same": bool(again), "plan": [], "lens0": {}, "events": [], "inject": ""},
+                                           separators=(",", ":")) + "\n")
+                        n += 1
     return n
